@@ -89,7 +89,11 @@ def materialise(p, fmt, pid):
         files.append({"rel": "ops/o%d.graphql" % j, "text": t})
         meta.append({"id": ["operation", j + 1], "rel": "ops/o%d.graphql" % j, "cp": [ord(c) for c in t]})
     args = (["--output-format", fmt] if fmt != "human" else []) + list(p["commands"])
-    return {"id": pid, "files": files, "args": args, "texts": False}, meta
+    case = {"id": pid, "files": files, "args": args, "texts": False}
+    if "generate" in p["commands"] and pid % 4 in (0, 1):
+        # run a second time in the same directory after the source maps (or the generated code) of the first run were deleted
+        case["rerunAfterDelete"] = [".map"] if pid % 4 == 0 else [".ts"]
+    return case, meta
 
 
 # a primary location starts its line; indented ones are "additional info" (e.g. where a type is defined)
@@ -140,8 +144,20 @@ def observe(ev, meta, fmt):
                           "line": int(m.group(2)) - 1, "col": int(m.group(3)) - 1})
     written = [file_id_out(proj + w, proj) for w in ev["written"]]
     other = [w for w in ev["deleted"]]
+    second = {"ran": False, "exit": 0, "panicked": False, "listed": [], "exists": [], "changed": []}
+    if ev.get("second"):
+        s2 = ev["second"]
+        l2 = []
+        try:
+            d2 = json.loads(s2["stdout"])
+            l2 = [file_id_out(f["path"], proj) for f in (d2.get("generate") or {}).get("files", [])] if isinstance(d2, dict) else []
+        except Exception:
+            pass
+        outs = lambda xs: [i for i in (file_id_out(proj + w, proj) for w in xs) if i[0] != "other"]
+        second = {"ran": True, "exit": s2["exit"], "panicked": bool(s2["panicked"] or s2["signal"]), "listed": l2,
+                  "exists": outs(s2["existsAfter"]), "changed": outs(s2["written"])}
     return {"exit": ev["exit"], "panicked": ev["panicked"] or ev["signal"], "oneJson": one_json, "diags": diags,
-            "written": written, "listed": listed, "otherChanges": other}
+            "written": written, "listed": listed, "otherChanges": other, "second": second}
 
 
 def map_stages(ev, meta):
